@@ -99,7 +99,7 @@ func c13Wrap(kind string, deflate []byte, plain []byte, dict []byte, r *gen.Rand
 func (c13) Run(c *mon.Ctx, i int) {
 	r := c.R
 	kind := []string{"flate", "flate", "gzip", "zlib"}[i%4]
-	history := []string{"complete", "partial-undelivered", "inside-header", "corrupt", "source-error", "at-eof", "never-read", "partial-undelivered"}[r.Intn(8)]
+	history := []string{"complete", "partial-undelivered", "inside-header", "corrupt", "source-error", "at-eof", "never-read", "partial-undelivered", "faulty-synth", "faulty-synth"}[r.Intn(10)]
 	// dictionaries (zlib only)
 	var dict0, dict1 []byte // dict for construction, dict for Reset
 	if kind == "zlib" {
@@ -117,6 +117,14 @@ func (c13) Run(c *mon.Ctx, i int) {
 		prevDeflate, _ = encodeDictStd(prevPlain, r.Pick(1, 6), dict0)
 	} else {
 		prevDeflate = encodeStd(prevPlain, r.Pick(0, 1, 6, -2), nil)
+	}
+	if history == "faulty-synth" {
+		// a stream that fails inside a block header or body after valid blocks
+		// (fixed and dynamic) have set up tables: every single-fault shape
+		f := synth.Faults[r.Intn(len(synth.Faults))]
+		st, pp, _ := synth.Faulty(r, f, r.Pick(1, 1, 2, 3))
+		prevDeflate = append(st, make([]byte, 40)...)
+		prevPlain = pp
 	}
 	prev := c13Wrap(kind, prevDeflate, prevPlain, dict0, r)
 	var prevSrc io.Reader
@@ -145,7 +153,7 @@ func (c13) Run(c *mon.Ctx, i int) {
 	}
 
 	// next input
-	nextKind := []string{"valid", "valid", "reach-before-start", "stale-table", "truncated", "valid-dict"}[r.Intn(6)]
+	nextKind := []string{"valid", "valid", "reach-before-start", "stale-table", "truncated", "valid-dict", "fixed-with-matches"}[r.Intn(7)]
 	var nextDeflate, nextPlain []byte
 	valid := false
 	nextDesc := nextKind
@@ -160,6 +168,15 @@ func (c13) Run(c *mon.Ctx, i int) {
 			nextDesc += " " + vs.Desc
 		}
 		valid = true
+	case "fixed-with-matches":
+		// fixed-code blocks first (they rely on the static tables being put back)
+		fs := synth.NewStream(r)
+		for b := 0; b < 2; b++ {
+			fs.Fixed(b == 1, synth.RandomTokens(r, len(fs.Plain), r.Range(20, 2000), "mixed"), true)
+		}
+		nextDeflate, nextPlain = fs.W.Bytes(), fs.Plain
+		valid = true
+		dict1 = nil
 	case "reach-before-start":
 		s := synth.NewStream(r)
 		lead := r.Intn(20)
@@ -274,7 +291,7 @@ func (c13) Run(c *mon.Ctx, i int) {
 			rd.gz.Multistream(false)
 		}
 		switch history {
-		case "complete", "at-eof", "corrupt", "source-error", "inside-header":
+		case "complete", "at-eof", "corrupt", "source-error", "inside-header", "faulty-synth":
 			io.Copy(io.Discard, rd)
 			if history == "at-eof" {
 				rd.Read(make([]byte, 10))
